@@ -6,11 +6,12 @@ package rpc
 // outcomes printed in the canonical form the model prints.  Serves C02 (decode side), C04, C05.
 
 import (
-	"runtime"
 	"errors"
 	"fmt"
 	"io"
 	"net"
+	"os"
+	"runtime"
 	"strconv"
 	"strings"
 	"sync/atomic"
@@ -67,6 +68,10 @@ func vEndErr(s string) error {
 	switch s {
 	case "op":
 		return &net.OpError{Op: "read", Net: "sim", Err: errors.New("use of closed network connection")}
+	case "optimeout": // what a net.Conn returns when its read deadline expires
+		return &net.OpError{Op: "read", Net: "sim", Err: os.ErrDeadlineExceeded}
+	case "deadline": // net.Pipe's bare deadline error
+		return os.ErrDeadlineExceeded
 	case "other":
 		return vErrOther{}
 	default:
@@ -284,11 +289,11 @@ func vRunDecode(c vCase) (outs []string, consumed []string, maxAsk int) {
 
 type vQuietOutput struct{}
 
-func (vQuietOutput) Error(string, ...interface{})   {}
-func (vQuietOutput) Warning(string, ...interface{}) {}
-func (vQuietOutput) Info(string, ...interface{})    {}
-func (vQuietOutput) Debug(string, ...interface{})   {}
-func (vQuietOutput) Profile(string, ...interface{}) {}
+func (vQuietOutput) Error(string, ...interface{})                      {}
+func (vQuietOutput) Warning(string, ...interface{})                    {}
+func (vQuietOutput) Info(string, ...interface{})                       {}
+func (vQuietOutput) Debug(string, ...interface{})                      {}
+func (vQuietOutput) Profile(string, ...interface{})                    {}
 func (o vQuietOutput) CloneWithAddedDepth(int) LogOutputWithDepthAdder { return o }
 
 type vQuietOpts struct{}
